@@ -34,8 +34,12 @@ Record param := { p_name : str; p_ty : pty; p_def : option value (* None = requi
 Record cls := { c_name : str; c_parents : list str; c_params : list param;
                 c_abstract : bool; c_varkw : bool }.
 Record func := { f_name : str; f_ret : str; f_params : list param }.
+(* A family lives in one module, or in a package: `fam_subs` says which classes / functions are defined in a
+   submodule (name -> submodule; everything else, the constants included, in the package's __init__), and
+   `fam_exports` lists the re-exports of __init__ (`from .sub import Target as Alias`: alias -> target). *)
 Record family := { fam_mod : str; fam_classes : list cls; fam_funcs : list func;
-                   fam_consts : list str }.
+                   fam_consts : list str;
+                   fam_subs : list (str * str); fam_exports : list (str * str) }.
 
 Inductive importable := ICls (k : cls) | IFun (f : func) | IConst.
 
@@ -90,13 +94,58 @@ Definition lookup_name (F : family) (nm : str) : option importable :=
             end
   end.
 
-(* import_object: "mod.name"; anything else raises (ValueError / ImportError / AttributeError) *)
+Definition sub_of (F : family) (nm : str) : option str := aget nm (fam_subs F).
+
+(* getattr(package, nm): what __init__ defines itself, else what it re-exports *)
+Definition lookup_pkg (F : family) (nm : str) : option importable :=
+  match sub_of F nm with
+  | None => match lookup_name F nm with
+            | Some o => Some o
+            | None => match aget nm (fam_exports F) with
+                      | Some tgt => lookup_name F tgt
+                      | None => None
+                      end
+            end
+  | Some _ => match aget nm (fam_exports F) with
+              | Some tgt => lookup_name F tgt
+              | None => None
+              end
+  end.
+
+Fixpoint split_dot (s : str) : str * option str :=      (* at the first "." *)
+  match s with
+  | [] => ([], None)
+  | c :: s' => if N.eqb c dot then ([], Some s')
+               else let '(a, b) := split_dot s' in (c :: a, b)
+  end.
+
+(* import_object: "mod.name" / "mod.sub.name"; anything else raises (ValueError / ImportError / AttributeError) *)
 Definition import_obj (F : family) (path : str) : option importable :=
   match strip_prefix (fam_mod F ++ [dot]) path with
-  | Some nm => if has_dot nm then None else lookup_name F nm
+  | Some rest =>
+      match split_dot rest with
+      | (nm, None) => lookup_pkg F nm
+      | (sub, Some nm) =>
+          if has_dot nm then None
+          else match sub_of F nm with
+               | Some s => if str_eqb s sub then lookup_name F nm else None
+               | None => None
+               end
+      end
   | None => None
   end.
-Definition path_of (F : family) (nm : str) : str := fam_mod F ++ [dot] ++ nm.
+
+(* get_import_path: the shortest path under which the very object is reachable: an object defined in a submodule
+   is "mod.name" iff __init__ re-exports it under its own name (`getattr(package, name) is value`) *)
+Definition path_of (F : family) (nm : str) : str :=
+  match sub_of F nm with
+  | None => fam_mod F ++ [dot] ++ nm
+  | Some s => match aget nm (fam_exports F) with
+              | Some tgt => if str_eqb tgt nm then fam_mod F ++ [dot] ++ nm
+                            else fam_mod F ++ [dot] ++ s ++ [dot] ++ nm
+              | None => fam_mod F ++ [dot] ++ s ++ [dot] ++ nm
+              end
+  end.
 
 (* issubclass along the parent lists; fuel = number of classes suffices for an acyclic family *)
 Fixpoint subclassb (n : nat) (F : family) (c base : str) : bool :=
@@ -259,6 +308,18 @@ Definition required_ok (ps : list param) (ia : list (str * value)) : bool :=
                     end) ps.
 
 Record mode := { m_strict : bool; m_defaults : bool }.
+
+(* ActionTypeHint._check_type: no previous value (absent or None), the parameter's default is a class spec
+   (lazy_instance(Sub, ..)) and we are not in the add_sub_defaults pass: the previous value is the default's class_path *)
+Definition prev_or_default (m : mode) (p : param) (prev : option value) : option value :=
+  match p_def p with
+  | Some (VSpec cp _ _) =>
+      match prev with
+      | None | Some VNull => if m_defaults m then prev else Some (VSpec cp [] [])
+      | _ => prev
+      end
+  | _ => prev
+  end.
 Definition lenient : mode := {| m_strict := false; m_defaults := false |}.
 Definition with_defaults : mode := {| m_strict := false; m_defaults := true |}.
 Definition strict : mode := {| m_strict := true; m_defaults := false |}.
@@ -287,12 +348,26 @@ Section Adapt.
     | POpt c, _ => rec m c prev (IRaw r)
     end.
 
+  Fixpoint defaults_of_rec (rec : mode -> str -> option value -> input -> res value)
+           (m : mode) (ps : list param) : res (list (str * value)) :=
+    match ps with
+    | [] => Ok []
+    | p :: ps' =>
+        d <- match p_def p, param_class (p_ty p) with
+             | Some (VSpec cp ia dk), Some c => rec m c None (IRaw (raw_of (VSpec cp ia dk)))
+             | Some d, _ => Ok d
+             | None, _ => Ok VNull
+             end ;;
+        rest <- defaults_of_rec rec m ps' ;;
+        Ok ((p_name p, d) :: rest)
+    end.
+
   (* discard_init_args_on_class_path_change: an old init_arg survives the class change iff the new
      class has a parameter of that name and the old value passes its (non-lenient) check *)
   Definition keep_arg (rec : mode -> str -> option value -> input -> res value)
              (ps : list param) (kv : str * value) : bool :=
     match find_param ps (fst kv) with
-    | Some p => match adapt_param rec strict (p_ty p) None (raw_of (snd kv)) with
+    | Some p => match adapt_param rec strict (p_ty p) (prev_or_default strict p None) (raw_of (snd kv)) with
                 | Ok _ => true | Err _ => false end
     | None => false
     end.
@@ -308,7 +383,7 @@ Section Adapt.
         match find_param ps k with
         | None => Err Reject                                 (* Key 'k' is not expected *)
         | Some p =>
-            v <- adapt_param rec m (p_ty p) (aget k base) r ;;
+            v <- adapt_param rec m (p_ty p) (prev_or_default m p (aget k base)) r ;;
             parse_ia rec m ps base kvs' (aset k (merge_val (aget k base) v) acc)
         end
     end.
@@ -343,7 +418,7 @@ Section Adapt.
         | Some p =>
             match param_class (p_ty p) with
             | Some c =>
-                v <- rec m c (aget k pia) (INested (strip_ia rest) (rs r)) ;;
+                v <- rec m c (prev_or_default m p (aget k pia)) (INested (strip_ia rest) (rs r)) ;;
                 Ok (VSpec cpn (aset k (merge_val (aget k pia) v) pia) [])
             | None => Err Reject
             end
@@ -360,7 +435,9 @@ Section Adapt.
     let moved := filter (fun kv => match find_param ps (fst kv) with Some _ => true | None => false end) dk in
     let dk' := filter (fun kv => match find_param ps (fst kv) with Some _ => false | None => true end) dk in
     let kvs' := aupdate kvs moved in
-    let base_ia := if m_defaults m then aupdate (defaults_of ps) pia else pia in
+    (* get_defaults of the class parser: a default that is a class spec is itself completed (add_sub_defaults) *)
+    dflts <- (if m_defaults m then defaults_of_rec rec m ps else Ok []) ;;
+    let base_ia := if m_defaults m then aupdate dflts pia else pia in
     ia <- parse_ia rec m ps base_ia kvs' base_ia ;;
     if m_strict m && negb (required_ok ps ia) then Err Reject
     else
